@@ -6,6 +6,16 @@ ALL = ["C%02d" % i for i in range(1, 21)]
 
 # id -> dict(level, text, note, technique, design_ref, engine)
 CHECKS = {
+ "C18": dict(level="exploration", engine="gridx",
+   text="FindRoot: 33 test functions (monotone incl. flat segments, kinks, steep ramp, routing-residual shapes; non-monotone with a bracketed sign change) x derivative kind x initial guess x tolerance x convergence limit x iteration budget, every combination, every evaluation point logged; Piecewise: every strictly increasing knot vector of length 2..5 from a 7-value pool x every y assignment from a 6-value pool x queries at knots, interior points, the floats adjacent to knots, outside, NaN, +-Inf, on contiguous and strided table views.",
+   note="Exhaustive over the stated families and lattices; the 'budget suffices for halving' clause is decided with a slope bound (sound), not by running a second bisection.",
+   technique="bounded-exhaustive enumeration of a finite family of functions/tables x argument lattice with contract oracles",
+   design_ref="2/C18"),
+ "C20": dict(level="exploration", engine="gridx",
+   text="Dense lattice: dry bulb -40..55 C (step 0.25 quick / 0.05 thorough, plus 0, +-0.001, +-0.01) x 25 humidities in (0,100] x 6 elevations, every point through the real ClimateVariables model; ordering (dew <= wet <= dry), monotonicity (vapour pressure in T, dew point in RH), deltaT identity and finiteness on every point.",
+   note="Nothing is claimed between lattice points.",
+   technique="bounded-exhaustive enumeration of an input lattice with ordering/monotonicity invariants between neighbouring lattice points",
+   design_ref="2/C20"),
  "C12": dict(level="exploration", engine="gridx",
    text="8 constituent models x parameter vectors forcing both branches of each x initial stored masses {0,>0} x every word of length T over alphabets with zero-flow, near-empty and above-bank-full letters; each word is executed as a chain of single-step calls on the real model so that the stored masses before and after every step are observed, and the per-step mass budget, non-negativity and remobilisation bound are checked.",
    note="Exhaustive over the stated lattice; the low-volume flush is the only admitted loss; StorageTrapAll's budget is in its own per-step units.",
